@@ -272,8 +272,9 @@ func oneRun(t *testing.T, r *ev.Run, g *ev.RNG, base string, run int) (string, i
 	fan0, lines0, logCount0 := fanouts.Load(), expInt("lines_total"), expInt("log_count")
 	shared := fmt.Sprintf("shared_%d", run)
 	progs := []*progModel{
-		{name: pfx + "a_fixed.mtail", src: fmt.Sprintf("counter %s\n/./ {\n  %s++\n}\n", shared, shared), valid: true},
-		{name: pfx + "z_clash.mtail", src: fmt.Sprintf("counter ok_%d\ngauge %s\n/./ {\n  %s = 1\n  ok_%d++\n}\n", run, shared, shared, run), valid: false},
+		{name: pfx + "a_fixed.mtail", src: fmt.Sprintf("counter %s\ncounter %s_2\n/./ {\n  %s++\n  %s_2++\n}\n", shared, shared, shared, shared), valid: true},
+		// refused at registration: clashes with a_fixed on one name (even runs) or on two names (odd runs) — one refused load is one load error either way
+		{name: pfx + "z_clash.mtail", src: fmt.Sprintf("counter ok_%d\ngauge %s\n/./ {\n  %s = 1\n  ok_%d++\n}\n", run, shared, shared, run) + map[bool]string{true: fmt.Sprintf("gauge %s_2\n/./ {\n  %s_2 = 2\n}\n", shared, shared), false: ""}[run%2 == 1], valid: false},
 		{name: pfx + "m_broken.mtail", src: "counter c\n/./ {\n  c++\n", valid: false},
 	}
 	for i := 0; i < g.Range(1, 2); i++ {
